@@ -11,10 +11,15 @@ mkdir -p bin
 if [ ! -x bin/instrument ] || [ tools/instrument/main.go -nt bin/instrument ] || [ tools/instrument/r4.go -nt bin/instrument ]; then
   go build -o bin/instrument ./tools/instrument || { echo "HARNESS-ERROR: instrumenter does not build"; exit 2; }
 fi
+# every check gets only the instrumentation rules it needs, so that a change to the repository that
+# removes one rule's anchor can only stop the checks that depend on that seam
 case "$ID" in
-  C14|C15) RULES=r2,r3,r4; MAIN=./harness/cmd/vcheck ;;
-  *)       RULES=r1,r2,r5,r6; MAIN=./harness/cmd/vcheck ;;
+  C14|C15)                 RULES=r2,r3,r4 ;;     # E3: sync shim + plain-access instrumentation (+ clock)
+  C16)                     RULES=r2,r6 ;;        # E4: file-system shim
+  C03|C04|C08|C12|C13)     RULES=none ;;         # E1 at generator level: hooks only
+  *)                       RULES=r1,r2,r5 ;;     # E2 through the public Check: PRNG seam/seed observer, clock, buffer observer
 esac
+MAIN=./harness/cmd/vcheck
 REPO="${VERIF_REPO:-/repo}"
 MODFLAG=""
 if [ "$REPO" != /repo ]; then
